@@ -228,6 +228,36 @@ theorem C05_rejects_with_error (hook : EqHook) (a b : Val) (ha : a.isHandle = tr
   | none => exact absurd hr (C05_rejects hook a b ha hda hdb h)
   | some e => exact ⟨e, hr⟩
 
+/-- **C05 (a slice or array of Stacks / Conditions as a leaf).** After repair F33 the elements of a `[]Stack` /
+`[]Condition` leaf are compared with `IsEqual` pair by pair (`handlesEqual`); inside the domain the leaf is accepted
+exactly when the two lists are built from the same descriptions, position by position — so a difference in any
+single element at any position is reported. -/
+theorem C05_handles_iff (hook : EqHook) (as bs : List Val)
+    (ha : ∀ a ∈ as, a.isHandle = true ∧ inDomain a = true) (hb : ∀ b ∈ bs, inDomain b = true) :
+    handlesEqual hook as bs = true ↔ sameDescL as bs = true := by
+  induction as generalizing bs with
+  | nil => cases bs <;> simp [handlesEqual, sameDescL]
+  | cons a as ih =>
+    cases bs with
+    | nil => simp [handlesEqual, sameDescL]
+    | cons b bs =>
+      have h1 := ha a (List.mem_cons_self ..)
+      have h2 := hb b (List.mem_cons_self ..)
+      have hi := C05_iff hook a b h1.1 h1.2 h2
+      have ih' := ih bs (fun x hx => ha x (List.mem_cons_of_mem _ hx)) (fun x hx => hb x (List.mem_cons_of_mem _ hx))
+      simp only [handlesEqual, sameDescL, Bool.and_eq_true, ih']
+      constructor
+      · rintro ⟨h, ht⟩
+        refine ⟨hi.mp ?_, ht⟩
+        split at h <;> simp_all
+      · rintro ⟨h, ht⟩
+        exact ⟨by rw [hi.mpr h], ht⟩
+
+/-- `[]Stack{Or("a")}` against `[]Stack{Or("b")}`: a difference (the defect repaired by F33 accepted it) -/
+example : handlesEqual (fun _ _ _ => none) [.stk .native { kind := 2 } [.leaf (.ev (.prim 16 ['a'] false))]]
+    [.stk .native { kind := 2 } [.leaf (.ev (.prim 16 ['b'] false))]] = false := by
+  decide
+
 /-! ## The hypotheses are satisfiable by non-trivial states -/
 
 /-- `And().Push([]int{1,2,3}, &S{A: 7, b: 8}, Cond("kw", Eq, map[string]int{"a": 1}))` is in the domain and well-formed -/
